@@ -38,6 +38,17 @@ ASSUMPTIONS = [
     "'within rounding distance of an integer' is read as: exact M/dt within 16 ulp (relative) of an integer",
     "time_to_maturity tolerance: 4 ulp of the maturity in the buffer dtype",
 ]
+ANCHORS = ['pfhedge.instruments.derivative.base:BaseDerivative.simulate',
+           'pfhedge.instruments.derivative.base:OptionMixin.time_to_maturity',
+           'pfhedge.instruments.primary.brownian:BrownianStock.simulate',
+           'pfhedge.instruments.primary.heston:HestonStock.simulate',
+           'pfhedge.instruments.primary.cir:CIRRate.simulate',
+           'pfhedge.instruments.primary.vasicek:VasicekRate.simulate',
+           'pfhedge.instruments.primary.merton_jump:MertonJumpStock.simulate',
+           'pfhedge.instruments.primary.kou_jump:KouJumpStock.simulate',
+           'pfhedge.instruments.primary.rough_bergomi:RoughBergomiStock.simulate',
+           'pfhedge.instruments.primary.local_volatility:LocalVolatilityStock.simulate']
+PYTEST_WORKLOAD = True  # thorough tier also runs /repo/tests with these passive monitors attached (DESIGN.md 2.7)
 DECIDING = ["grid.n_points", "grid.derivative_simulate", "ttm.values"]
 REQUIRED_BRANCHES = ["ratio.integer", "ratio.non_integer", "ttm.negative_index"]
 
